@@ -70,13 +70,20 @@ def _set_active_context(heap: EventHeap, clock: Clock) -> None:
     # Set per-partition event counter if the heap owns one
     heap_counter = getattr(heap, "_event_counter", None)
     if heap_counter is not None:
+        # Continue after every index already issued to events of this heap
+        heap_counter = heap._continue_event_counter()
         _active_counter_var.set(heap_counter)
 
 
 def _clear_active_context() -> None:
     """Clear the active simulation context. Called when Simulation.run() exits."""
-    from happysimulator.core.event import _active_counter_var
+    from happysimulator.core.event import _active_counter_var, _advance_global_event_counter
 
+    # Events created after leaving the run context (e.g. while paused) must sort
+    # after the events created during it.
+    active_counter = _active_counter_var.get(None)
+    if active_counter is not None:
+        _advance_global_event_counter(active_counter.__next__())
     _active_heap_var.set(None)
     _active_clock_var.set(None)
     _active_counter_var.set(None)
